@@ -183,9 +183,9 @@ class Enc(A.Encoder):
         super().__init__()
         self.info: dict[int, tuple] = {}
 
-    def add_info(self, i, arr):
+    def add_info(self, i, arr, axes=()):
         weak = bool(getattr(arr, 'weak_type', False))
-        self.info[i] = (str(np.dtype(arr.dtype)), weak, [int(n) for n in arr.shape])
+        self.info[i] = (str(np.dtype(arr.dtype)), weak, [int(n) for n in arr.shape], [int(a) for a in axes])
 
     def term(self, op) -> str:
         j = A.J()
@@ -207,7 +207,7 @@ class Enc(A.Encoder):
         w = A.wrap_kind(op)
         if w is not None:
             if w == 'WDiagInv':
-                self.add_info(i, op.diagonal)
+                self.add_info(i, op.diagonal, op.axis_destination)
             return f'(Wrap {i} {w} {self.term(op.operator)})'
         cls = A.PRIM_CLASSES.get(name, 'CAtom')
         si, so = A.struct_coq(op.in_structure()), A.struct_coq(op.out_structure())
@@ -215,11 +215,11 @@ class Enc(A.Encoder):
         if cls == 'CQURotation':
             self.add_info(i, op.angles)
         elif cls in ('CDiagonal', 'CBroadcastDiagonal'):
-            self.add_info(i, op.diagonal)
+            self.add_info(i, op.diagonal, op.axis_destination)
         elif cls == 'CDense':
             jnp = j['jnp']
             bl = j['jax'].tree.leaves(op.blocks)
-            self.info[i] = (str(np.dtype(jnp.result_type(*bl))), all(bool(getattr(b, 'weak_type', False)) for b in bl), [])
+            self.info[i] = (str(np.dtype(jnp.result_type(*bl))), all(bool(getattr(b, 'weak_type', False)) for b in bl), [], [])
         elif cls == 'CToeplitz':
             self.add_info(i, op.band_values)
         elif cls == 'CIndex':
@@ -230,8 +230,8 @@ class Enc(A.Encoder):
 
     def info_coq(self) -> str:
         rows = []
-        for i, (dt, weak, shape) in self.info.items():
-            rows.append(f'({i}%N, mkPinfo (ST.mkTy {DT_COQ.get(dt, "ST.DBool")} {cbool(weak)}) {clist(shape, A.cn)})')
+        for i, (dt, weak, shape, axes) in self.info.items():
+            rows.append(f'({i}%N, mkPinfo (ST.mkTy {DT_COQ.get(dt, "ST.DBool")} {cbool(weak)}) {clist(shape, A.cn)} {clist(axes, A.cz)})')
         return clist(rows, str)
 
 
@@ -437,6 +437,9 @@ def impl_case(case):
         from furax import Config
 
         env = {}
+        grid = case.get('grid')
+        if grid:
+            priv['_gleaves'] = [[int(n) for n in l.shape] for l in jax.tree.leaves(mk_struct(grid['s']))]
         with Config(solver_callback=A._noop):
             for name, d in case['let']:
                 reason = legal_reason(d, env)
@@ -446,7 +449,13 @@ def impl_case(case):
                     env[name] = build(d, env)
                 except Exception as e:
                     inside = all(real_avail(o) and strict_guard(o) for o in env.values())
-                    return {'ctor_error': type(e).__name__, 'msg': str(e)[:200], 'illegal': reason, 'at': name, 'parts_inside_guards': inside}, priv
+                    obs = {'ctor_error': type(e).__name__, 'msg': str(e)[:200], 'illegal': reason, 'at': name, 'parts_inside_guards': inside}
+                    if grid and name == case['op']:
+                        # parameter shapes enumerated across the boundary of what the constructor accepts:
+                        # a refusal is legitimate (whether it is the RIGHT refusal is decided by the model)
+                        obs['illegal'] = reason or 'parameter grid: the constructor may refuse'
+                        obs['grid'] = 'rejected:' + type(e).__name__
+                    return obs, priv
                 if reason is not None:
                     return {'accepted_illegal': reason, 'at': name, 'constructed': type(env[name]).__name__}, priv
         op = env[case['op']]
@@ -458,13 +467,19 @@ def impl_case(case):
         except Exception as e:
             obs['eval'] = None
             obs['eval_error'] = short(e)
+        actual_leaves = None
         try:
             x = probe_input(sin)
             obs['x'] = srepr(as_struct(x))
-            obs['actual'] = srepr(as_struct(op.mv(x)))
+            y = op.mv(x)
+            obs['actual'] = srepr(as_struct(y))
+            actual_leaves = [[int(n) for n in l.shape] for l in jax.tree.leaves(y)]
         except Exception as e:
             obs['actual'] = None
             obs['actual_error'] = short(e)
+        obs['ctor'] = True  # the object exists: its constructor accepted the parameters
+        if grid:
+            obs['grid'] = {'axes': [int(a) for a in op.axis_destination], 'outs': actual_leaves}
         obs['sizes'] = [int(op.in_size()), int(op.out_size())]
         obs['size_ref'] = [A.struct_size(sin), A.struct_size(sout)]
         prom = []
@@ -624,6 +639,141 @@ def leaf_alphabet(dt, pdt, quick):
     return L
 
 
+# ---------------------------------------------------------------------------------------------
+# parameter grids: shapes of the array parameters enumerated ACROSS the boundary of what the constructors
+# accept / of what broadcasts into the data (size-1 values, unit and extra axes, destination axes at and
+# beyond the leaf rank on both sides, negative axes, mixed-rank pytrees incl. rank-0 leaves)
+
+
+def small_values(shape):
+    n = int(np.prod(shape)) if len(shape) else 1
+    return ((np.arange(n) % 3) + 1).reshape(shape).tolist()
+
+
+DIAG_VALUE_SHAPES = [(1,), (2,), (3,), (1, 1), (1, 3), (3, 1), (2, 3), (1, 1, 1)]
+DIAG_AXES_ANY = list(range(-4, 4))
+DIAG_AXES_SEQ = {
+    1: [],
+    2: [[0, 1], [1, 0], [-1, -2], [-2, -1], [0, 2], [1, 2], [0, 0], [-1, 1], [0, -1], [0], [1]],
+    3: [[0, 1, 2], [2, 0, 1], [-3, -2, -1], [1, 2, 3]],
+}
+
+
+def diag_grid_structs(dt, other):
+    leaf = lambda sh: S(sh, dt)  # noqa: E731
+    return {
+        's0': leaf([]), 's1': leaf([1]), 's3': leaf([3]), 's31': leaf([3, 1]), 's13': leaf([1, 3]), 's23': leaf([2, 3]),
+        's32': leaf([3, 2]), 's231': leaf([2, 3, 1]), 's11': leaf([1, 1]),
+        'tg1': {'dict': {'tod': leaf([3, 1]), 'ground': leaf([3])}},          # a leaf without the sample axis
+        'tg2': {'dict': {'tod': leaf([3, 2]), 'ground': leaf([3])}},
+        'l23_3': {'list': [leaf([2, 3]), leaf([3])]},
+        't3_0': {'tuple': [leaf([3]), leaf([])]},                               # a rank-0 leaf
+        't1_11': {'tuple': [leaf([1]), leaf([1, 1])]},
+        'iqu3': stokes('IQU', [3], dt),
+        'mix': {'list': [leaf([3]), S([3, 1], other)]},                          # mixed dtypes and ranks
+        'n13': {'tuple': [leaf([1, 3]), {'dict': {'a': leaf([3]), 'b': leaf([2, 1, 3])}}]},
+    }
+
+
+DIAG_CORE_STRUCTS = ('s0', 's1', 's3', 's31', 'tg1', 't3_0', 't1_11', 'mix')
+
+
+def diag_grid(dt, pdt, x64, rng, frac_core, frac_unit, frac_other):
+    """DiagonalOperator / BroadcastDiagonalOperator over value shapes x axis_destination x input structures;
+    kept with probability frac_core (size-1 values on the core structures: where accepted and refused meet),
+    frac_unit (size-1 values elsewhere), frac_other (the other value shapes)."""
+    other = F64 if dt == F32 else F32
+    structs = diag_grid_structs(dt, other)
+    out = []
+    for dsh in DIAG_VALUE_SHAPES:
+        unit = all(n == 1 for n in dsh)
+        for ax in DIAG_AXES_ANY + DIAG_AXES_SEQ[len(dsh)]:
+            for sn, sd in structs.items():
+                for k in ('diag', 'bdiag'):
+                    keep = frac_other if not unit else (frac_core if sn in DIAG_CORE_STRUCTS else frac_unit)
+                    if rng.random() >= keep:
+                        continue
+                    d = {'k': k, 'v': small_values(dsh), 'axis': ax, 'pdt': pdt, 's': sd}
+                    out.append({
+                        'kind': f'grid:{k}', 'x64': x64, 'dt': dt, 'pdt': pdt, 'let': [('r', d)], 'op': 'r',
+                        'grid': {'strict': k == 'diag', 'dsh': list(dsh), 'axis': ax, 's': sd, 'sname': sn},
+                    })
+    return out
+
+
+def param_grid_alphabet(dt, pdt, rng=None):
+    """Toeplitz band batch shapes, rotation angle shapes, scalars / HWP / polariser on rank-0 and mixed-rank
+    leaves: name -> description (ordinary single operators, judged inside the guards).  With rng: one
+    Toeplitz method per (band shape, data shape) instead of the four."""
+    L = {}
+    other = F64 if dt == F32 else F32
+    if pdt != I32:
+        for bn, bsh in (('k', [2]), ('1k', [1, 2]), ('2k', [2, 2]), ('11k', [1, 1, 2]), ('31k', [3, 1, 2]), ('12k', [1, 2, 2]), ('k1', [1]), ('1k1', [1, 1])):
+            for dn, dsh in (('5', [5]), ('15', [1, 5]), ('25', [2, 5]), ('325', [3, 2, 5]), ('315', [3, 1, 5]), ('2', [2]), ('21', [2, 1])):
+                if bsh[-1] > dsh[-1]:
+                    continue
+                methods = ('dense', 'direct', 'fft', 'overlap_save')
+                for m in (methods if rng is None else (methods[int(rng.random() * 4) % 4],)):
+                    L[f'gT.{bn}.{dn}.{m}'] = {'k': 'toeplitz', 'band': small_values(bsh), 'pdt': pdt, 'method': m, 's': S(dsh, dt)}
+        for an, ash in (('s', []), ('1', [1]), ('3', [3]), ('13', [1, 3]), ('21', [2, 1]), ('23', [2, 3]), ('11', [1, 1]), ('113', [1, 1, 3]), ('2', [2])):
+            q = small_values(ash) if ash else 1
+            for kind in ('I', 'QU', 'IQU', 'IQUV'):
+                for ln, lsh in (('0', []), ('1', [1]), ('3', [3]), ('23', [2, 3]), ('13', [1, 3]), ('21', [2, 1])):
+                    L[f'gQ.{an}.{kind}.{ln}'] = {'k': 'qurot', 'q': q, 'pdt': pdt, 's': stokes(kind, lsh, dt)}
+    for ln, st in (('r0', S([], dt)), ('t30', {'tuple': [S([3], dt), S([], dt)]}), ('tg', {'dict': {'tod': S([3, 1], dt), 'ground': S([3], other)}}),
+                   ('iqu0', stokes('IQU', [], dt)), ('iqu23', stokes('IQU', [2, 3], dt))):
+        L[f'gI.{ln}'] = {'k': 'ident', 's': st}
+        L[f'gH.{ln}'] = {'k': 'homoth', 'v': 2, 'pdt': pdt, 's': st}
+        L[f'gHpy.{ln}'] = {'k': 'homoth', 'v': 0.5, 'pdt': 'py', 's': st}
+    for kind in ('I', 'QU', 'IQU', 'IQUV'):
+        for ln, lsh in (('0', []), ('23', [2, 3]), ('1', [1])):
+            L[f'gW.{kind}.{ln}'] = {'k': 'hwp', 's': stokes(kind, lsh, dt)}
+            L[f'gPol.{kind}.{ln}'] = {'k': 'pol', 's': stokes(kind, lsh, dt)}
+    return L
+
+
+def param_grid_cases(dt, pdt, x64, rng, frac, one_method=False):
+    L = param_grid_alphabet(dt, pdt, rng if one_method else None)
+    out = []
+    floaty = dt != I32
+    for n in sorted(L):
+        if rng.random() >= frac:
+            continue
+        head = n.split('.')[0]
+        out.append({'kind': 'leaf:' + head, 'x64': x64, 'dt': dt, 'pdt': pdt, 'let': [(n, L[n])], 'op': n})
+        if floaty and head in ('gQ', 'gT', 'gH', 'gW'):
+            which = 'T' if head in ('gQ', 'gW') or rng.random() < 0.5 else 'I'
+            out.append({'kind': f'{which}:{head}', 'x64': x64, 'dt': dt, 'pdt': pdt, 'let': [(n, L[n]), ('r', {'k': 'expr', 'e': {which: n}})],
+                        'op': 'r', 'rel': [which, n]})
+    return out
+
+
+# structures with the same leaves in different containers (what a block column / row must NOT mix)
+def container_twins(dt):
+    a, b = S([2], dt), S([3], dt)
+    return [
+        ('tuple-vs-list', {'tuple': [a, b]}, {'list': [a, b]}),
+        ('list-vs-dict', {'list': [a, b]}, {'dict': {'a': a, 'b': b}}),
+        ('dict-keys', {'dict': {'a': a, 'b': b}}, {'dict': {'a': a, 'c': b}}),
+        ('nesting', {'tuple': [{'tuple': [a, a]}, a]}, {'tuple': [a, {'tuple': [a, a]}]}),
+        ('leaf-vs-1-tuple', a, {'tuple': [a]}),
+        ('stokes-vs-tuple', stokes('QU', [2], dt), {'tuple': [a, a]}),
+        ('leaf-count', {'tuple': [a, a]}, {'tuple': [a, a, a]}),
+    ]
+
+
+def container_rejects(dt=F32):
+    out = []
+    for label, sa, sb in container_twins(dt):
+        parts = [('a', {'k': 'ident', 's': sa}), ('h', {'k': 'homoth', 'v': 2, 's': sa}), ('b', {'k': 'ident', 's': sb})]
+        for kind in ('col', 'row'):
+            for cn_, cont in (('list', ['a', 'h', 'b']), ('dict', {'dict': {'x': 'a', 'y': 'b'}}), ('nested', {'dict': {'p': {'tuple': ['a', 'h']}, 'q': ['b']}})):
+                out.append((f'{kind}-{cn_}-{label}', parts + [('r', {'k': kind, 'blocks': cont})]))
+        out.append((f'product-{label}', parts + [('r', {'k': 'expr', 'e': {'mm': ['a', 'b']}})]))
+        out.append((f'sum-{label}', parts + [('r', {'k': 'expr', 'e': {'add': ['a', 'b']}})]))
+    return out
+
+
 def composite_cases(dt, pdt, x64, L, rng, quick):
     """Cases built from the alphabet: (name, extra let entries, op name, rel, cont)."""
     out = []
@@ -695,6 +845,26 @@ def composite_cases(dt, pdt, x64, L, rng, quick):
         add('block-reduce-' + kind, [('b', {'k': kind, 'blocks': cont}), ('r', {'k': 'expr', 'e': {'reduce': 'b'}})], ['same', 'b'], needs=names)
         if floaty:
             add('block-T-' + kind, [('b', {'k': kind, 'blocks': cont}), ('r', {'k': 'expr', 'e': {'T': 'b'}})], ['T', 'b'], needs=names)
+    # blocks whose (input / output) structures are pytrees in DIFFERENT container kinds: legal for the
+    # non-shared side; the declared structure must be the tree of what the blocks accept / return
+    pt_parts = [
+        ('rt', {'k': 'row', 'blocks': {'tuple': ['I.v3', 'H.v3']}}), ('rl', {'k': 'row', 'blocks': ['D.v3', 'I.v3']}),
+        ('rd', {'k': 'row', 'blocks': {'dict': {'p': 'H.v3', 'q': 'D.v3'}}}), ('rt2', {'k': 'row', 'blocks': {'tuple': ['D.v3', 'H.v3']}}),
+        ('ct', {'k': 'col', 'blocks': {'tuple': ['I.v3', 'H.v3']}}), ('cl', {'k': 'col', 'blocks': ['D.v3', 'I.v3']}),
+        ('cd', {'k': 'col', 'blocks': {'dict': {'p': 'H.v3', 'q': 'D.v3'}}}), ('ct2', {'k': 'col', 'blocks': {'tuple': ['D.v3', 'H.v3']}}),
+    ]
+    for kind, cont in (
+        ('row', ['rt', 'rl', 'rd']), ('row', {'dict': {'z': 'rd', 'a': 'rt'}}), ('bdiagop', ['rt', 'cl', 'rd']), ('bdiagop', {'tuple': ['ct', 'rl', 'I.lst']}),
+        ('col', ['ct', 'cl', 'cd']), ('col', {'tuple': ['cd', ['ct']]}), ('col', ['rt', 'rt2']), ('row', ['ct', 'ct2']),
+        ('col', ['D.lst', 'H.lst', 'I.lst']), ('row', {'dict': {'u': 'D.dct', 'v': 'H.dct'}}), ('bdiagop', ['D.nst', 'I.dct', 'H.iqu']),
+    ):
+        names = [n for n in _names(cont)]
+        used = [(n, d) for n, d in pt_parts if n in names]
+        needs = [n for n in names if n not in dict(pt_parts)] + ['I.v3', 'H.v3', 'D.v3']
+        add('block-pytree-' + kind, used + [('r', {'k': kind, 'blocks': cont})], [kind], cont, needs=needs)
+        if floaty:
+            add('block-pytree-T-' + kind, used + [('b', {'k': kind, 'blocks': cont}), ('r', {'k': 'expr', 'e': {'T': 'b'}})], ['T', 'b'], needs=needs)
+        add('block-pytree-reduce-' + kind, used + [('b', {'k': kind, 'blocks': cont}), ('r', {'k': 'expr', 'e': {'reduce': 'b'}})], ['same', 'b'], needs=needs)
     # block products reduced by the block rules
     for l, r in ((('row', ['A23', 'A23']), ('bdiagop', ['A33', 'D.v3'])), (('bdiagop', ['A23', 'D.v3']), ('col', ['A33', 'A33b'])),
                  (('row', ['A33', 'D.v3']), ('col', ['A33b', 'H.v3']))):
@@ -734,7 +904,12 @@ REJECTS = [
     ('product-dtype-mismatch', [('a', {'k': 'ident', 's': S([3], F32)}), ('b', {'k': 'ident', 's': S([3], I32)}), ('r', {'k': 'expr', 'e': {'mm': ['a', 'b']}})]),
     ('sum-dtype-mismatch', [('a', {'k': 'ident', 's': S([3], F32)}), ('b', {'k': 'ident', 's': S([3], I32)}), ('r', {'k': 'expr', 'e': {'add': ['a', 'b']}})]),
     ('sum-tree-mismatch', [('a', {'k': 'ident', 's': {'list': [S([3], F32)]}}), ('b', {'k': 'ident', 's': {'tuple': [S([3], F32)]}}), ('r', {'k': 'expr', 'e': {'add': ['a', 'b']}})]),
-]
+    # a column over blocks that are themselves rows with a tuple / a list input; a row over columns likewise
+    ('col-of-rows-tuple-vs-list', [('i', {'k': 'ident', 's': S([3], F32)}), ('h', {'k': 'homoth', 'v': 2, 's': S([3], F32)}),
+                                   ('rt', {'k': 'row', 'blocks': {'tuple': ['i', 'h']}}), ('rl', {'k': 'row', 'blocks': ['h', 'i']}), ('r', {'k': 'col', 'blocks': ['rt', 'rl']})]),
+    ('row-of-cols-tuple-vs-list', [('i', {'k': 'ident', 's': S([3], F32)}), ('h', {'k': 'homoth', 'v': 2, 's': S([3], F32)}),
+                                   ('ct', {'k': 'col', 'blocks': {'tuple': ['i', 'h']}}), ('cl', {'k': 'col', 'blocks': ['h', 'i']}), ('r', {'k': 'row', 'blocks': ['ct', 'cl']})]),
+] + container_rejects()
 
 
 class Check(PropertyCheck):
@@ -800,6 +975,16 @@ class Check(PropertyCheck):
                     out.append(case)
             for name, let in REJECTS:
                 out.append({'kind': 'reject:' + name, 'x64': x64, 'let': let, 'op': let[-1][0], 'expect': 'reject'})
+            # parameter grids across the accept / reject and the broadcast-into / wider-than boundaries
+            if quick:
+                plan = [(F32, F32, 1.0, 0.25, 0.12, 0.3)] if not x64 else [(F64, F32, 0.1, 0.1, 0.03, 0.1), (F32, F64, 0.05, 0.05, 0.02, 0.05), (F32, F32, 0.05, 0.05, 0.02, 0.05)]
+                if not x64:
+                    plan += [(I32, F32, 0.04, 0.04, 0.015, 0.04), (F32, I32, 0.04, 0.04, 0.015, 0.0), (F64, F64, 0.04, 0.04, 0.015, 0.04)]
+            else:
+                plan = [(dt, pdt, 1.0, 1.0, 1.0, 1.0) if (dt, pdt) == (F32, F32) else (dt, pdt, 0.5, 0.5, 0.25, 0.4) for dt, pdt in combos]
+            for dt, pdt, fc, fu, fo, fp in plan:
+                out += diag_grid(dt, pdt, x64, rng, fc, fu, fo)
+                out += param_grid_cases(dt, pdt, x64, rng, fp, one_method=quick)
         return out
 
     def rule(self):
@@ -809,7 +994,14 @@ class Check(PropertyCheck):
             'structural transposes, inverses, products in both association orders, reduced products (incl. the rewriting '
             'rules), sums/differences, scalar multiples, block row/diagonal/column operators over list/dict/tuple/nested '
             'containers with their transposes, reductions and rule-reduced products; parameters deliberately wider than '
-            'the data (guard false); constructor calls that must be refused. Non-trivial: the declared output structure '
+            'the data (guard false); constructor calls that must be refused (shape, dtype and CONTAINER mismatches of the '
+            'shared side of block rows/columns, products, sums). Parameter grids across the boundary of what the '
+            'constructors accept / of what broadcasts into the data: DiagonalOperator and BroadcastDiagonalOperator over '
+            'value shapes {(1,),(2,),(3,),(1,1),(1,3),(3,1),(2,3),(1,1,1)} x axis_destination {-4..3, tuples incl. '
+            'duplicates and fewer axes than dimensions} x 17 input structures (rank 0-3 leaves, unit axes, mixed-rank and '
+            'mixed-dtype pytrees, rank-0 leaves, Stokes) - quick tier: the size-1 value shapes on 8 core structures exhaustively, the rest sampled; Toeplitz band batch '
+            'shapes x data batch shapes x 4 methods; rotation angle shapes x Stokes kinds x leaf shapes (+ transposes); '
+            'scalars / HWP / polariser on rank-0 and mixed-rank leaves. Non-trivial: the declared output structure '
             'differs from the input structure, or a guard is false, or the constructor refused.'
         )
 
@@ -831,17 +1023,40 @@ class Check(PropertyCheck):
 
     # -- model -----------------------------------------------------------------------------------
     def model_term(self, case):
+        if case.get('grid') and '_gleaves' in case and '_term' not in case and not case.get('_unsupported'):
+            return self.grid_term(case)  # refused by the real constructor: what does the model's constructor say
         if case.get('_unsupported') or '_term' not in case:
             return None
         e, info, x64 = case['_term'], case['_info'], cbool(case['x64'])
-        return (
+        term = (
             f'(let e : xop := {e} in let info := {info} in '
             f'(c05_obs {x64} info e, show_struct (in_struct e), show_struct (out_struct e), '
             f'option_map show_struct (xeval {x64} info e (in_struct e))))'
         )
+        if case.get('grid'):
+            return f'({term}, {self.grid_term(case)})'
+        return term
+
+    @staticmethod
+    def grid_term(case):
+        """The constructor of the diagonal classes on (shape of the values, axis_destination, leaf shapes)."""
+        g = case['grid']
+        ax = g['axis']
+        spec = f'(AxInt {A.cz(ax)})' if isinstance(ax, int) else f'(AxSeq {clist(ax, A.cz)})'
+        leaves = clist(case['_gleaves'], lambda l: clist(l, A.cn))
+        return f'(diag_ctor {cbool(g["strict"])} {clist(g["dsh"], A.cn)} {spec} {leaves})'
+
+    @staticmethod
+    def decode_grid(g):
+        if g is None:
+            return 'rejected:ValueError'
+        axes, outs = g['a'][0]
+        return {'axes': [int(a) for a in axes], 'outs': [[int(n) for n in o] for o in outs]}
 
     def decode(self, case, v):
-        wf, pnw, av, sizes, prom, sin, sout, ev = v
+        if case.get('grid') and '_term' not in case:
+            return {'grid': self.decode_grid(v)}
+        wf, pnw, av, ck, sizes, prom, sin, sout, ev = v[:9]
         evs = None
         if isinstance(ev, dict) and ev.get('c') == 'Some':
             evs = A.decode_struct(ev['a'][0])
@@ -851,24 +1066,33 @@ class Check(PropertyCheck):
 
         if not av:
             evs = pnw = 'not compared: a declared dtype does not exist in this mode'
-        elif not pnw and not case['kind'].startswith('leaf'):
+        elif not pnw and not case['kind'].startswith(('leaf', 'grid')):
             evs = 'not compared: composite with parameters wider than the data'
-        return {
-            'wf': wf, 'guard': pnw, 'avail': av, 'in': A.decode_struct(sin), 'out': A.decode_struct(sout), 'eval': evs,
+        d = {
+            'wf': wf, 'guard': pnw, 'avail': av, 'ctor': ck, 'in': A.decode_struct(sin), 'out': A.decode_struct(sout), 'eval': evs,
             'sizes': list(sizes), 'promoted': [pid(prom[0]), pid(prom[1])],
         }
+        if not av:
+            d['ctor'] = 'not compared: a declared dtype does not exist in this mode'
+        if case.get('grid'):
+            d['grid'] = self.decode_grid(v[9])
+        return d
 
     def comparable(self, case, obs):
+        if isinstance(obs, dict) and 'grid' in obs and 'in' not in obs:
+            return {'grid': obs['grid']}
         if not isinstance(obs, dict) or 'in' not in obs:
             return obs
         d = {
-            'wf': obs['wf'], 'guard': obs['guard'], 'avail': obs['avail'], 'in': obs['in'], 'out': obs['out'],
+            'wf': obs['wf'], 'guard': obs['guard'], 'avail': obs['avail'], 'ctor': obs['ctor'], 'in': obs['in'], 'out': obs['out'],
             'eval': obs['eval'], 'sizes': obs['sizes'], 'promoted': [obs['promoted'][0][1], obs['promoted'][1][1]],
         }
         if not obs['avail']:
-            d['eval'] = d['guard'] = 'not compared: a declared dtype does not exist in this mode'
-        elif not obs['guard'] and not case['kind'].startswith('leaf'):
+            d['eval'] = d['guard'] = d['ctor'] = 'not compared: a declared dtype does not exist in this mode'
+        elif not obs['guard'] and not case['kind'].startswith(('leaf', 'grid')):
             d['eval'] = 'not compared: composite with parameters wider than the data'
+        if 'grid' in obs:
+            d['grid'] = obs['grid']
         return d
 
     def nontrivial(self, case, obs):
